@@ -6,7 +6,7 @@ ID = 'C03'
 HARNESSES = ['h_c01.cpp', 'h_load.cpp', 'h_hist.cpp']
 LEVEL = 'model_checking'
 BUDGET = {'quick': 280, 'thorough': 3000}
-BOUNDS = {'quick': 'objects built through the API (C01 quick shapes/orders/extra parameters), objects reached by every history of 2 public calls (56-operation alphabet; 3 calls and more start states in thorough) from the declared and the populated start state, and loaded-then-edited objects; parameter-section length steered through ALL 512 residues modulo the block size (520 consecutive lengths); plus objects whose parameter section fills 254 and 255 blocks (data start block 256/257); payload symbolic (data floats free, so the byte following the parameter section is any value)',
+BOUNDS = {'quick': 'objects built through the API (C01 quick shapes/orders/extra parameters), objects reached by every history of 2 public calls (56-operation alphabet) from the declared and the populated start state (thorough: also fresh, loaded and loaded-with-deviating-lists), and loaded-then-edited objects; parameter-section length steered through ALL 512 residues modulo the block size (520 consecutive lengths); plus objects whose parameter section fills 254 and 255 blocks (data start block 256/257); payload symbolic (data floats free, so the byte following the parameter section is any value)',
           'thorough': 'two full sweeps of the residues (1040 lengths, sections of 2-4 blocks); C01 thorough shapes'}
 OUTSIDE = 'histories deeper than load + 2 edits; parameter sections longer than 3 blocks'
 ASSUMPTIONS = ['the reference decoder oracle/c3dref.py follows only the file\'s own pointers (header byte 1, POINT:DATA_START, next-offsets)']
@@ -28,7 +28,7 @@ def jobs(tier, seed):
         out.append({'entry': 'h_c17', 'harness': 'h_c01.cpp', 'cfg': {'kind': 9, 'value': v, 'obsfile': 1}, 'name': 'many-blocks'})
     # objects reached through a history of public calls (56-operation alphabet), then saved
     from . import histcommon
-    for j in histcommon.hist_jobs(tier, seed, finish=4):
+    for j in histcommon.hist_jobs('quick', seed, finish=4, extra_starts=(3,)):          # depth 2 in both tiers (a save and a full structural decode end every path)
         if j['cfg']['start'] in ((1, 2) if tier == 'quick' else (0, 1, 2, 3, 6)): out.append(j)
     return out
 
